@@ -593,6 +593,15 @@ def vec_segments(body, local):
         raise FactError("byte-vector local _%d has %d definitions" % (local, len(ds)))
     segs = []
     d = ds[0]
+    hops = 0
+    while d[0] == "assign" and "use" in d[3] and hops < 3:
+        # `let mut v = make_prefix(..)` through a temporary: the vector is what that call returned
+        pl = d[3]["use"].get("move")
+        d2 = body.defs().get(pl["l"], []) if pl is not None and not pl["p"] else []
+        if len(d2) != 1:
+            break
+        d = d2[0]
+        hops += 1
     if d[0] == "call":
         c = d[2]
         if c.fn in ("alloc::vec::Vec::<T>::with_capacity", "alloc::vec::Vec::<T>::new"):
